@@ -24,6 +24,7 @@ LEVEL_NOTE = ("oracle: same session key, opened blocks equal in kind/selector/ve
               "the original bytes, component content equal (encrypted components up to the declared length); a reader "
               "given a wrong-key decryptor may raise - only a returned file is compared")
 RUNS = {"quick": 4000, "thorough": 200000}
+OPTIMIZED_PASS = {"quick": 300, "thorough": 4000}   # extra runs under PYTHONOPTIMIZE=1 (assert statements removed)
 RULE = ("per run one BEC2 file: non-empty ordered subset of {customer-key, ECC(selector 0-3, explicit or default "
         "recipient), update(code, version)} blocks, session key supplied or drawn from the RNG seam (forced into "
         "trailing-0x00 / CRC-0x00 classes for half of the drawn keys), content of C01 plus optional encrypted "
@@ -32,7 +33,7 @@ RULE = ("per run one BEC2 file: non-empty ordered subset of {customer-key, ECC(s
 REAL = ["bec2format.bec2file (Bec2File, auth blocks, encryptors)", "bec2format.bf3file", "bec2format.crypto registry",
         "register_crypto_plugin (AES adapter, ECC proxies)", "pyaes", "ecdsa"]
 STUBS = ["medium: SimFS", "RNG: SimRng behind register_random_bytes and os.urandom shims"]
-PROBES = ["writer-list-reused-for-reading", "encrypt-only-entry-in-decryptor-list", "same-object-second-recipient",
+PROBES = ["runs-with-assertions-disabled", "writer-list-reused-for-reading", "encrypt-only-entry-in-decryptor-list", "same-object-second-recipient",
           "write-after-crashed-attempt", "write-after-failed-attempt", "keystore-arm", "writer-keystore", "session-key-trailing-zero", "crc-low-byte-zero", "crc-high-byte-zero", "key-drawn-from-rng",
           "three-blocks", "subset-leaves-block-opaque", "wrong-key-arm-raised", "wrong-key-arm-returned",
           "encrypted-config", "default-recipient-ecc", "customer-key-present"]
